@@ -7,6 +7,7 @@ use super::path::Path;
 use super::resolver::PathResolver;
 use crate::haystack::val::{Ref, Value};
 use crate::val::Symbol;
+use std::cmp::Ordering;
 use std::collections::HashSet;
 use std::fmt::{Display, Formatter, Result};
 
@@ -181,19 +182,37 @@ impl Eval for Cmp {
         match self.op {
             CmpOp::Eq => cmp_dispatch(&PartialEq::eq, &lhs, &self.value),
             CmpOp::NotEq => cmp_dispatch(&PartialEq::ne, &lhs, &self.value),
-            CmpOp::LessThan => cmp_dispatch(&|a, b| same_kind(a, b) && a < b, &lhs, &self.value),
-            CmpOp::LessThanEq => cmp_dispatch(&|a, b| same_kind(a, b) && a <= b, &lhs, &self.value),
-            CmpOp::GreatThan => cmp_dispatch(&|a, b| same_kind(a, b) && a > b, &lhs, &self.value),
-            CmpOp::GreatThanEq => {
-                cmp_dispatch(&|a, b| same_kind(a, b) && a >= b, &lhs, &self.value)
-            }
+            CmpOp::LessThan => cmp_dispatch(
+                &|a, b| matches!(order(a, b), Some(Ordering::Less)),
+                &lhs,
+                &self.value,
+            ),
+            CmpOp::LessThanEq => cmp_dispatch(
+                &|a, b| matches!(order(a, b), Some(Ordering::Less | Ordering::Equal)),
+                &lhs,
+                &self.value,
+            ),
+            CmpOp::GreatThan => cmp_dispatch(
+                &|a, b| matches!(order(a, b), Some(Ordering::Greater)),
+                &lhs,
+                &self.value,
+            ),
+            CmpOp::GreatThanEq => cmp_dispatch(
+                &|a, b| matches!(order(a, b), Some(Ordering::Greater | Ordering::Equal)),
+                &lhs,
+                &self.value,
+            ),
         }
     }
 }
 
-/// Only values of the same kind are ordered
-fn same_kind(lhs: &Value, rhs: &Value) -> bool {
-    std::mem::discriminant(lhs) == std::mem::discriminant(rhs)
+/// Only values of the same kind are ordered, and numbers only when they have the same unit
+fn order(lhs: &Value, rhs: &Value) -> Option<Ordering> {
+    match (lhs, rhs) {
+        (Value::Number(lhs), Value::Number(rhs)) => lhs.partial_cmp(rhs),
+        _ if std::mem::discriminant(lhs) == std::mem::discriminant(rhs) => Some(lhs.cmp(rhs)),
+        _ => None,
+    }
 }
 
 fn cmp_dispatch<Cmp: Fn(&Value, &Value) -> bool>(cmp: &Cmp, lhs: &Value, rhs: &Value) -> bool {
